@@ -16,13 +16,14 @@ def sh(cmd, cwd=None, timeout=3000):
 def main():
     src, prop = sys.argv[1], sys.argv[2]
     overlay = "--overlay" in sys.argv
+    prefix = next((a.split("=", 1)[1] for a in sys.argv if a.startswith("--prefix=")), "")
     outd = os.path.join(src, "out")
     for i in sorted(os.listdir(outd)):
         d = os.path.join(outd, i)
         if not os.path.isdir(d) or not os.path.exists(os.path.join(d, "patch.diff")):
             continue
         meta = json.load(open(os.path.join(d, "meta.json")))
-        name = "%s-%s" % (prop, i)
+        name = "%s-%s%s" % (prop, prefix, i)
         dst = os.path.join(V, "seeded", name)
         wt = "/tmp/seedimp-" + name.lower()
         sh(["git", "-C", "/repo", "worktree", "remove", "--force", wt])
